@@ -880,6 +880,54 @@ pub fn vtable_words_check(words: *const usize, size: usize, getters: &[usize], t
     Ok(())
 }
 
+/// C04: a single-trait object is {vtable pointer, container}, and the container is
+/// {instance handle, context, temporary storage} in that order (what the headers publish as
+/// `CGlueObjContainer_..`), for every instance / context / storage choice.
+pub fn obj_container_check<O, R>(o: &O, tname: &str) -> Result<(), Fail>
+where
+    O: cglue::trait_group::GetContainer,
+    O::ContType: cglue::trait_group::CGlueObjRef<R>,
+{
+    use cglue::trait_group::{CGlueObjBase, CGlueObjRef};
+    use std::mem::{align_of, size_of, size_of_val};
+    let up = |x: usize, a: usize| (x + a - 1) / a * a;
+    let w = size_of::<usize>();
+    let base = o as *const O as usize;
+    let cont = o.ccont_ref();
+    let ca = cont as *const O::ContType as usize;
+    if ca != base + w || size_of::<O>() != w + size_of_val(cont) {
+        return Err(Fail::new("C04:object-container", format!("object of {tname}: container at offset {} of a {}-byte object with a {}-byte container; expected one vtable pointer, then the container, nothing else", ca.wrapping_sub(base), size_of::<O>(), size_of_val(cont))));
+    }
+    let (inst, rt, ctx) = cont.cobj_ref();
+    let inst = inst as *const <O::ContType as CGlueObjBase>::ObjType as *const u8 as usize;
+    let first = unsafe { *(ca as *const usize) };
+    if first != inst {
+        return Err(Fail::new("C04:object-container", format!("object of {tname}: the first word of the container is not the instance pointer")));
+    }
+    let isz = size_of::<<O::ContType as CGlueObjBase>::InstType>();
+    let csz = size_of::<<O::ContType as CGlueObjBase>::Context>();
+    let want_ctx = up(ca + isz, align_of::<<O::ContType as CGlueObjBase>::Context>());
+    let ctx = ctx as *const _ as usize;
+    if csz > 0 && ctx != want_ctx {
+        return Err(Fail::new("C04:object-container", format!("object of {tname}: the context sits at offset {} of the container, expected {} (right after the instance handle)", ctx.wrapping_sub(ca), want_ctx - ca)));
+    }
+    let want_rt = up(want_ctx + csz, align_of::<R>());
+    let rt = rt as *const R as usize;
+    if size_of::<R>() > 0 && rt != want_rt {
+        return Err(Fail::new("C04:object-container", format!("object of {tname}: the temporary storage sits at offset {} of the container, expected {} (after instance handle and context)", rt.wrapping_sub(ca), want_rt - ca)));
+    }
+    Ok(())
+}
+
+/// C13: the vtable entry of a method marked to use integer results returns the integer code.
+pub fn int_entry_check<F>(_entry: &F, name: &str) -> Result<(), Fail> {
+    let ty = std::any::type_name::<F>();
+    if !ty.ends_with("-> i32") {
+        return Err(Fail::new("C13:entry-not-integer-coded", format!("method {name} is marked to use integer results, but its vtable entry is `{ty}`")));
+    }
+    Ok(())
+}
+
 pub fn vt_ptr<V, G: cglue::trait_group::GetVtblBase<V>>(g: &G) -> usize {
     g.get_vtbl_base() as *const V as usize
 }
